@@ -66,7 +66,7 @@ def run(prop, tier, seed, replay=None):
     if not replay:
         if stores and not hits:
             chk.inconclusive_because("hint stores were observed but no probe was answered from a hint: the monitor did not reach the hidden state")
-        for k in ("C14.random_history_steps", "C14.fresh_copy_comparisons", "C14.cache_sequences", "C14.failed_name_sequences", "C14.hint_state_probes"):
+        for k in ("C14.random_history_steps", "C14.fresh_copy_comparisons", "C14.cache_sequences", "C14.failed_name_sequences", "C14.hint_state_probes", "C14.bulk_cache_names"):
             if res.stat(k) == 0:
                 chk.inconclusive_because("monitor observed no '%s' events" % k)
     return chk.finish()
